@@ -88,6 +88,9 @@ let parse_top tok = let open Table in
   | ["rmref"; s] | ["rmref"; s; _] -> TRemoveRef (n s) | ["rmnum"; i] -> TRemoveNum (n i)
   | ["updref"; s; v] -> TUpdateRef (n s, z v) | ["updnum"; i; v] -> TUpdateNum (n i, z v)
   | ["rmif"; m] -> TRemoveIf (z m) | ["clear"] -> TClear | ["count"] -> TCount
+  | ["selectif"; m; s] -> TSelectIf (z m, n s) | ["selofsel"; ss; m; s] -> TSelOfSel (n ss, z m, n s)
+  | ["selsort"; ss] -> TSelSort (n ss) | ["selsum"; ss] -> TSelSum (n ss) | ["selrev"; ss] -> TSelReverse (n ss)
+  | ["selrm"; ss; j; c] -> TSelRemove (n ss, n j, n c) | ["selcount"; ss] -> TSelCount (n ss) | ["rmsel"; ss] -> TRemoveSel (n ss)
   | _ -> failwith ("bad op " ^ tok)
 let run_dt toks = let open Table in
   let ops = Stdlib.List.map parse_top toks in
